@@ -308,6 +308,7 @@ def _execute(ctx, plan, world):
         fs.faults.setdefault(kind, set()).add(n)
     fs.fault_errno = plan.get("io_errno", 28)
     slow = {"n": 0}
+    slow_extra = (plan.get("slow_io") or [0, 0.0])[1]        # a slow file call stretches every bound by its duration
 
     saved = {n: [] for n in names}          # versions handed to save_all, in order (index = position)
     last_seen = {n: -1 for n in names}       # index of the newest version ever observed on disk
@@ -519,7 +520,7 @@ def _execute(ctx, plan, world):
     else:
         # quiet: enough simulated time for every pending write, with stalls off (faults have stopped)
         loop.stall_enabled = False
-        world.run(8.0)
+        world.run(8.0 + slow_extra)
         observe_changed("quiet end")
         if fs.fired_faults:
             ctx.probe("io_error_fired")
@@ -536,7 +537,7 @@ def _execute(ctx, plan, world):
                 ctx.log("save_all", n, ver, t=loop.time())
                 mgrs[n].save_all(data)
             fs.faults = {}
-            world.run(8.0)
+            world.run(8.0 + slow_extra)
             observe_changed("after post-failure save")
             for n in names:
                 if last_seen[n] != len(saved[n]) - 1:
